@@ -106,9 +106,15 @@ def check_invariance():
                     kw['mu_r'] = np.full(shape, 1.5)
                     kw['epsilon_r'] = np.full(shape, 3.0)
                 model = emg3d.Model(grid, **kw)
-                for freq in (1.0, -1.0):
+                stored = {k: np.array(v, copy=True) for k, v in kw.items() if k != 'mapping'}
+                # every domain twice: the coefficients of a second use (second source, second solve) must be those of the first
+                for freq in (1.0, -1.0, -1.0, 1.0):
                     vm = emg3d.models.VolumeModel(model, emg3d.Field(grid, frequency=freq))
                     cur = [vm.eta_x, vm.eta_y, vm.eta_z, vm.zeta]
+                    for k, v in stored.items():
+                        if not np.array_equal(np.asarray(getattr(model, k)), v):
+                            return dict(reproduced=True, cases=cases, clause='computing the solver coefficients changed the stored model', attribute=k,
+                                        mapping=mp, case=case, frequency=freq, how='contracts.c14_concrete.check_invariance')
                     key = (freq,)
                     if ref is None:
                         ref = {}
